@@ -6,6 +6,7 @@ import NPModel.Refine.Samples
 import NPModel.Refine.GetItem
 import NPModel.Refine.Take
 import NPModel.Refine.Slices
+import NPModel.Refine.TakeFill
 namespace NP.C05
 open NP
 variable {α : Type}
@@ -61,6 +62,21 @@ theorem pickle_refines (c : PCol α) (hw : c.WF = true) : (NArr.pickle c).rows =
 theorem take_refines (c : PCol α) (hw : c.WF = true) (ha : c.aligned) (indices : List Int) (fill : Row α) :
     (NArr.take c indices false fill).map PCol.rows = Spec.take c.rows indices false fill :=
   take_refines_nofill c hw ha indices fill
+
+/-- **`take(..., allow_fill=True, fill_value=row)` is list `take` with a fill row**: `-1` becomes
+    the fill row, any other negative position is a ValueError, a position beyond the end an
+    IndexError — for every validated column in any layout and every fill row that conforms to the
+    dtype (`None`, or a rectangular table of the dtype's fields); the result passes the
+    constructor's validation. -/
+theorem take_fill_refines (c : PCol α) (hw : c.WF = true) (ha : c.aligned) (indices : List Int) (fill : Row α)
+    (hfill : Spec.conformRow c.ty fill = some fill) :
+    (NArr.take c indices true fill).map PCol.rows = Spec.take c.rows indices true fill :=
+  take_refines_fill c hw ha indices fill hfill
+
+/-- non-vacuity: `None` and a table with the dtype's fields conform -/
+example : Spec.conformRow [("a", "int64"), ("b", "int64")] (none : Row Nat) = some none ∧
+    Spec.conformRow [("a", "int64"), ("b", "int64")] (some [("a", [1, 2]), ("b", [3, 4])])
+      = some (some [("a", [1, 2]), ("b", [3, 4])]) := by decide
 
 /-- **Concatenation is `++`**: the chunks of all inputs in order, validated. -/
 theorem concat_is_append (ty : List (String × String)) (cs : List (PCol α)) (hv : ∀ c ∈ cs, c.validate = .ok ())
